@@ -621,11 +621,14 @@ class Body:
         q = list(start_locals)
         defs = self.defs()
         pdefs = self.partial_defs()
+        mw = self.mut_writes()
         while q and len(seen) < limit:
             l = q.pop()
             if l in seen:
                 continue
             seen.add(l)
+            for src in mw.get(l, ()):
+                q.append(src)
             for d in defs.get(l, []) + pdefs.get(l, []):
                 if d[0] == 's':
                     for o in _rvalue_operands(d[3]['r']):
@@ -636,6 +639,56 @@ class Body:
                         if 'p' in o:
                             q.append(o['p'][0])
         return seen
+
+    def mut_base(self, l, depth=6):
+        """the local whose storage a `&mut` temp points into: `_t = &mut X[..]` / deref_mut(&mut X)"""
+        if depth <= 0:
+            return None
+        sd = self.single_def(l)
+        if sd is None:
+            return None
+        kind, bi, si, s = sd
+        if kind == 's':
+            r = s['r']
+            if r['k'] == 'ref' and r['m'] == 'mut':
+                pl = r['p']
+                if '*' in pl[1:]:
+                    return self.mut_base(pl[0], depth - 1) or pl[0]
+                return pl[0]
+            if r['k'] == 'use' and 'p' in r['o']:
+                return self.mut_base(r['o']['p'][0], depth - 1)
+            if r['k'] == 'cast' and 'p' in r['o']:
+                return self.mut_base(r['o']['p'][0], depth - 1)
+            return None
+        cs = CallSite(self, bi, s)
+        if cs.args and 'p' in cs.args[0] and re.search(r'(deref_mut|as_mut_slice|as_mut|index_mut|borrow_mut)$', cs.callee):
+            return self.mut_base(cs.args[0]['p'][0], depth - 1)
+        return None
+
+    def mut_writes(self):
+        """X -> locals that flow into X through a call taking `&mut X` (copy_from_slice, fill_bytes,
+        read_exact, extend_from_slice, push ...): the other arguments of that call"""
+        if getattr(self, '_mw', None) is None:
+            d = defaultdict(set)
+            for cs in self.calls():
+                bases = []
+                others = []
+                for a in cs.args:
+                    if 'p' not in a:
+                        continue
+                    l = a['p'][0]
+                    ty = self.local_ty(l)
+                    if ty.startswith('&mut ') and len(a['p']) == 1:
+                        mb = self.mut_base(l)
+                        if mb is not None:
+                            bases.append(mb)
+                            continue
+                    others.append(l)
+                for x in bases:
+                    for o in others:
+                        d[x].add(o)
+            self._mw = d
+        return self._mw
 
     def return_blocks(self):
         return [bi for bi, t in self.terms() if t['k'] == 'ret']
@@ -1098,57 +1151,65 @@ def norm_cmp(c):
 
 
 def try_edges(body, cs):
-    """for `call(..)?`: find the Try::branch applied to the call's result and return
-    (continue_edge_node, break_edge_node) or None."""
+    """for `call(..)?` / `call(..).await?` / `call(..).map_err(..)?`: find the Try::branch applied to
+    the call's result and return (continue_edge_node, break_edge_node), else None.
+    The search follows the value forward through moves, Ok/Err-preserving adapters and the
+    Poll::Ready arm of an await loop (bounded)."""
     if cs.target is None or cs.dest is None:
         return None
-    dst = cs.dest[0]
-    # follow moves of dst until a Try::branch call consumes it (same or following blocks)
-    succ, _, edges = body.cfg()
+    aliases = {cs.dest[0]}
     seen = set()
-    cur = cs.target
-    aliases = {dst}
-    for _ in range(12):
+    order = []
+    q = deque([cs.target])
+    while q and len(order) < 60:
+        cur = q.popleft()
         if cur in seen:
-            break
+            continue
         seen.add(cur)
-        b = body.blocks[cur]
-        for s in b['s']:
-            r = s['r']
-            if r['k'] == 'use' and 'p' in r['o'] and r['o']['p'][0] in aliases and len(s['d']) == 1:
-                aliases.add(s['d'][0])
-        t = b['t']
-        if t['k'] == 'call':
-            c2 = CallSite(body, cur, t)
-            if c2.callee.endswith('Try>::branch') or c2.declared.endswith('Try::branch'):
-                if c2.args and 'p' in c2.args[0] and c2.args[0]['p'][0] in aliases:
-                    # the switch on disc(dest) follows
-                    nb = c2.target
-                    for _ in range(3):
-                        tt = body.blocks[nb]['t']
-                        if tt['k'] == 'switch':
-                            cont = brk = None
-                            for n, e in body.edges_of(nb):
-                                if e[1] == '0':
-                                    cont = n
-                                elif e[1] == '1':
-                                    brk = n
-                            return cont, brk
-                        if tt['k'] == 'goto':
-                            nb = tt['t']
-                        else:
-                            break
-                    return None
-            if 'p' in (c2.args[0] if c2.args else {}) and c2.args[0]['p'][0] in aliases and (
-                    TRANSPARENT.match(c2.callee) or RESULT_PASS.search(c2.callee)):
-                aliases.add(c2.dest[0])
-            cur = t.get('t')
-            if cur is None:
-                break
-        elif t['k'] == 'goto':
-            cur = t['t']
-        else:
-            break
+        order.append(cur)
+        t = body.blocks[cur]['t']
+        k = t['k']
+        if k == 'switch':
+            # only a Poll / discriminant switch of an alias is followed (Ready arm and friends)
+            for v, tgt in t['v']:
+                q.append(tgt)
+            q.append(t['o'])
+        elif k in ('goto', 'drop', 'assert'):
+            q.append(t['t'])
+        elif k == 'call' and t.get('t') is not None:
+            q.append(t['t'])
+    for _ in range(2):
+        for cur in order:
+            b = body.blocks[cur]
+            for s in b['s']:
+                r = s['r']
+                if r['k'] == 'use' and 'p' in r['o'] and r['o']['p'][0] in aliases and len(s['d']) == 1:
+                    aliases.add(s['d'][0])
+            t = b['t']
+            if t['k'] == 'call' and t.get('args'):
+                a0 = t['args'][0]
+                if 'p' in a0 and a0['p'][0] in aliases:
+                    c2 = CallSite(body, cur, t)
+                    if c2.callee.endswith('Try>::branch') or c2.declared.endswith('Try::branch'):
+                        nb = c2.target
+                        for _i in range(3):
+                            tt = body.blocks[nb]['t']
+                            if tt['k'] == 'switch':
+                                cont = brk = None
+                                for n, e in body.edges_of(nb):
+                                    if e[1] == '0':
+                                        cont = n
+                                    elif e[1] == '1':
+                                        brk = n
+                                return cont, brk
+                            if tt['k'] == 'goto':
+                                nb = tt['t']
+                            else:
+                                break
+                        return None
+                    if TRANSPARENT.match(c2.callee) or RESULT_PASS.search(c2.callee):
+                        if c2.dest:
+                            aliases.add(c2.dest[0])
     return None
 
 
